@@ -66,6 +66,7 @@ func (e *Engine) facetList(st *State) ([]string, []*Term) {
 // findViolations enumerates models of (pc ∧ bad), filtering the ones listed as known findings.
 func (e *Engine) findViolations(st *State, bad *Term, label, msg string) (violated bool) {
 	tb := e.tb
+	bad = tb.And(bad, st.SPC)
 	fnames, fterms := e.facetList(st)
 	recs := st.nondetList()
 	var extras []*Term
